@@ -35,6 +35,9 @@ type seqStep struct {
 	Req *world.Req `json:"req,omitempty"`
 	// Wait asks for the next wall-clock second to start before the step (freshness runs).
 	Wait bool `json:"wait,omitempty"`
+	// Faults (interface level) and DFaults (SQL driver level) are storage calls that fail during this step (C07).
+	Faults  []string `json:"faults,omitempty"`
+	DFaults []string `json:"dfaults,omitempty"`
 	// N is the target size of a probe: the honest request computed from the OBSERVED stored state.
 	N int `json:"n,omitempty"`
 }
@@ -101,6 +104,11 @@ type updEvent struct {
 	Shape     shape               `json:"shape"`
 	Ctr       map[string]Ctr      `json:"ctr"`
 	Conc      string              `json:"conc"`
+	FRun      bool                `json:"frun"`   // the run injects storage failures (C07)
+	Fired     []string            `json:"fired"`  // failures that were actually injected during this step
+	Calls     []string            `json:"calls"`  // storage calls the witness made during this step
+	OpenTx    int                 `json:"opentx"` // driver transactions begun and not finished after the call returned
+	InUse     int                 `json:"inuse"`  // database/sql connections in use after the call returned
 }
 
 type getEvent struct {
@@ -146,6 +154,7 @@ func seqMain(args []string) error {
 	workers := fs.Int("workers", 8, "parallel runs")
 	dir := fs.String("dir", os.TempDir(), "scratch directory")
 	useHTTP := fs.Bool("http", false, "serve reads through the HTTP API and the bundled client")
+	withFaults := fs.Bool("faults", false, "wrap the store with the fault-injecting persistence (C07)")
 	_ = fs.Parse(args)
 
 	f, err := os.Open(*in)
@@ -179,7 +188,7 @@ func seqMain(args []string) error {
 		go func() {
 			defer wg.Done()
 			for r := range runs {
-				ev, err := execSeqRun(base, r, *storeKind, *embed, *seed, *dir, *useHTTP)
+				ev, err := execSeqRun(base, r, *storeKind, *embed, *seed, *dir, *useHTTP, *withFaults)
 				if err == nil {
 					err = tw.writeRun(ev)
 				}
@@ -239,14 +248,14 @@ func hexVal(c byte) byte {
 	return c - '0'
 }
 
-func execSeqRun(base *world.World, r seqRun, storeKind, embed string, seed int64, dir string, useHTTP bool) ([]any, error) {
+func execSeqRun(base *world.World, r seqRun, storeKind, embed string, seed int64, dir string, useHTTP, withFaults bool) ([]any, error) {
 	tag := fmt.Sprintf("%s-%s-%s-%d", r.ID, storeKind, embed, seed)
 	if len(r.Phases) == 0 {
-		return execPhase(base, tag, -1, r.Steps, storeKind, embed, seed, dir, useHTTP)
+		return execPhase(base, tag, -1, r.Steps, storeKind, embed, seed, dir, useHTTP, withFaults)
 	}
 	var all []any
 	for pi, steps := range r.Phases {
-		ev, err := execPhase(base, tag, pi, steps, storeKind, embed, seed, dir, useHTTP)
+		ev, err := execPhase(base, tag, pi, steps, storeKind, embed, seed, dir, useHTTP, withFaults)
 		if err != nil {
 			return nil, err
 		}
@@ -255,7 +264,7 @@ func execSeqRun(base *world.World, r seqRun, storeKind, embed string, seed int64
 	return all, nil
 }
 
-func execPhase(base *world.World, tag string, phase int, steps []seqStep, storeKind, embed string, seed int64, dir string, useHTTP bool) ([]any, error) {
+func execPhase(base *world.World, tag string, phase int, steps []seqStep, storeKind, embed string, seed int64, dir string, useHTTP, withFaults bool) ([]any, error) {
 	r := seqRun{Steps: steps}
 	w := base.ForRun(tag, hashSeed(tag, seed))
 	st, err := newStore(storeKind, dir)
@@ -263,7 +272,13 @@ func execPhase(base *world.World, tag string, phase int, steps []seqStep, storeK
 		return nil, err
 	}
 	defer st.close()
-	wit, err := newWitness(w, st.p)
+	var fl *faultLSP
+	witP := st.p
+	if withFaults {
+		fl = newFaultLSP(st.p)
+		witP = fl
+	}
+	wit, err := newWitness(w, witP)
 	if err != nil {
 		return nil, err
 	}
@@ -315,11 +330,64 @@ func execPhase(base *world.World, tag string, phase int, steps []seqStep, storeK
 				events = append(events, skipEvent{E: "skip", Run: tag, K: k})
 				continue
 			}
+			if fl != nil {
+				for _, f := range s.Faults {
+					fl.arm(f, 1)
+				}
+				if st.hook != nil {
+					for _, f := range s.DFaults {
+						st.hook.arm(f, 1)
+					}
+				}
+			}
 			start := time.Now()
-			ret, uerr := wit.Update(ctx, c.LogID, c.OldSize, c.CP, c.Proof)
+			var ret []byte
+			var uerr error
+			hung := false
+			if fl != nil {
+				done := make(chan struct{})
+				go func() {
+					ret, uerr = wit.Update(ctx, c.LogID, c.OldSize, c.CP, c.Proof)
+					close(done)
+				}()
+				select {
+				case <-done:
+				case <-time.After(20 * time.Second):
+					hung = true
+				}
+			} else {
+				ret, uerr = wit.Update(ctx, c.LogID, c.OldSize, c.CP, c.Proof)
+			}
 			end := time.Now()
+			var fired, calls []string
+			openTx, inUse := 0, 0
+			if fl != nil {
+				fired, calls = fl.disarm()
+				if st.hook != nil {
+					fired = append(fired, st.hook.disarm()...)
+					openTx = st.hook.open()
+				}
+				if st.db != nil {
+					inUse = st.db.Stats().InUse
+				}
+			}
+			if hung || inUse > 0 {
+				// the store is wedged (a transaction holds the single connection): state cannot be read back
+				v := verdict(uerr)
+				if hung {
+					v = "Hang"
+				}
+				ab := updEvent{E: "update", Run: tag, K: k, Log: s.Log, Req: *s.Req, V: v, Ret: "nil",
+					Stored: project(w, pre), LogList: abstractLogs(w, pre.logs), Unchanged: true, RefOK: "na", Ctr: map[string]Ctr{},
+					FRun: true, Fired: nonNil(fired), Calls: nonNil(calls), OpenTx: openTx, InUse: inUse, Conc: "store wedged; run abandoned"}
+				for name, l := range w.Logs {
+					ab.Ctr[name] = readCtr(l.ID)
+				}
+				return append(events, ab), nil
+			}
 			post := takeSnapshot(w, st.p)
 			ev := updEvent{E: "update", Run: tag, K: k, Log: s.Log, Req: *s.Req, V: verdict(uerr),
+				FRun: fl != nil, Fired: nonNil(fired), Calls: nonNil(calls), OpenTx: openTx, InUse: inUse,
 				Stored: project(w, post), LogList: abstractLogs(w, post.logs), Unchanged: pre.equal(post),
 				RefOK: "na", Ctr: map[string]Ctr{},
 				Conc: fmt.Sprintf("old=%d size=%d proof=%d %s", c.OldSize, c.Size, len(c.Proof), c.Note)}
@@ -590,6 +658,13 @@ func cleanPath(p string) string {
 		np += "/"
 	}
 	return np
+}
+
+func nonNil(s []string) []string {
+	if s == nil {
+		return []string{}
+	}
+	return s
 }
 
 func readBack(wit interface{ GetCheckpoint(string) ([]byte, error) }, id string, ret []byte) bool {
